@@ -26,9 +26,52 @@ thread_local! {
     static PANICS: RefCell<Vec<String>> = const { RefCell::new(Vec::new()) };
 }
 
+/// The innermost frame of the panicking thread that belongs to the library or to one of the crates
+/// it drives (not to `http`/`std`, where a generic container merely reports the misuse).
+fn responsible_frame() -> String {
+    let bt = std::backtrace::Backtrace::force_capture().to_string();
+    for line in bt.lines() {
+        let l = line.trim();
+        // frame lines look like "12: hyper::proto::h1::role::..."; location lines start with "at "
+        let Some((_, sym)) = l.split_once(": ") else { continue };
+        if l.starts_with("at ") {
+            continue;
+        }
+        let sym = sym.trim_start_matches('<');
+        for root in ["hyperdriver::", "hyper::", "h2::", "tower_http::", "tokio_rustls::", "hyper_util::"] {
+            if sym.starts_with(root) && !sym.contains("verif_hooks") {
+                // drop generic arguments, closure markers and the hash suffix
+                let mut t = sym.split('<').next().unwrap_or(sym).to_string();
+                if let Some(i) = t.find(" as ") {
+                    t.truncate(i);
+                }
+                while let Some(st) = t.strip_suffix("::{{closure}}") {
+                    t = st.to_string();
+                }
+                if let Some(i) = t.rfind("::h") {
+                    if t[i + 3..].len() == 16 && t[i + 3..].chars().all(|c| c.is_ascii_hexdigit()) {
+                        t.truncate(i);
+                    }
+                }
+                return t.trim_end_matches("::").to_string();
+            }
+        }
+    }
+    String::new()
+}
+
 fn install_hook() {
     std::panic::set_hook(Box::new(|info| {
         let loc = info.location().map(|l| format!("{}:{}", l.file().rsplit("repo/").next().unwrap_or(l.file()), l.line())).unwrap_or_default();
+        // a panic raised inside a dependency's container code is attributed to the frame that called it
+        let loc = if loc.contains("/.cargo/registry/") {
+            let file = loc.rsplit('/').next().unwrap_or(&loc).replace(':', "#");
+            let krate = loc.rsplit("/src/").nth(1).and_then(|p| p.rsplit('/').next()).unwrap_or("").to_string();
+            // (the signature code splits at ':', so the path separator of the symbol is rewritten)
+            format!("{krate}/{file} via {}", responsible_frame().replace("::", "."))
+        } else {
+            loc
+        };
         let msg = info.payload().downcast_ref::<&str>().map(|s| s.to_string()).or_else(|| info.payload().downcast_ref::<String>().cloned()).unwrap_or_default();
         PANICS.with(|p| p.borrow_mut().push(format!("{loc}: {msg}")));
     }));
@@ -46,7 +89,9 @@ pub struct Case {
 
 pub fn grammar() -> Vec<Case> {
     let versions = [http::Version::HTTP_09, http::Version::HTTP_10, http::Version::HTTP_11, http::Version::HTTP_2, http::Version::HTTP_3];
-    let hosts = ["example.com", "127.0.0.1", "[::1]", "a_b.test", "-", "a..b", "exa$mple.com", "EXAMPLE.COM", "[::1]:8443", "example.com:0", "user:pw@example.com", "u@[::1]:65535"];
+    let hosts = ["example.com", "127.0.0.1", "[::1]", "a_b.test", "-", "a..b", "exa$mple.com", "EXAMPLE.COM", "[::1]:8443", "example.com:0", "user:pw@example.com", "u@[::1]:65535",
+        // a colon without a usable port: empty (legal per RFC 3986) or out of range
+        "example.com:", "[::1]:", "example.com:99999"];
     let mut uris: Vec<(String, &'static str)> = vec![];
     for h in hosts {
         uris.push((format!("http://{h}/p?q=1"), "absolute-http"));
@@ -71,6 +116,7 @@ pub fn grammar() -> Vec<Case> {
                     continue;
                 }
                 for headers in 0..3u8 {
+                    // header sets 3 and 4 (a header map filled to its capacity) are added for a few URIs below
                     // bodies only matter for a few combinations; keep the product small but complete in the other dimensions
                     for body in [false, true] {
                         if body && !(method == "POST" || method == "PURGE") {
@@ -78,6 +124,16 @@ pub fn grammar() -> Vec<Case> {
                         }
                         v.push(Case { version, method, uri: uri.clone(), uri_class: class, headers, body });
                     }
+                }
+            }
+        }
+    }
+    // a header map that cannot take one more entry (with and without the headers the client would add itself)
+    for version in versions {
+        for method in ["GET", "POST"] {
+            for (uri, class) in [("http://example.com/p?q=1", "absolute-http"), ("https://example.com/p", "absolute-https")] {
+                for headers in [3u8, 4] {
+                    v.push(Case { version, method, uri: uri.into(), uri_class: class, headers, body: method == "POST" });
                 }
             }
         }
@@ -90,9 +146,25 @@ fn build_request(c: &Case) -> Option<http::Request<Body>> {
     match c.headers {
         1 => b = b.header("host", "caller.test"),
         2 => b = b.header("connection", "upgrade").header("upgrade", "foo").header("te", "trailers"),
+        3 => b = b.header("host", "caller.test").header("user-agent", "caller/1"),
         _ => {}
     }
-    b.body(if c.body { Body::from("payload") } else { Body::empty() }).ok()
+    let mut req = b.body(if c.body { Body::from("payload") } else { Body::empty() }).ok()?;
+    if c.headers >= 3 {
+        // as many distinct headers as the map accepts: `try_insert` reports when it is full
+        let mut i = 0u32;
+        loop {
+            let name = http::HeaderName::from_bytes(format!("x-fill-{i}").as_bytes()).ok()?;
+            if req.headers_mut().try_insert(name, http::HeaderValue::from_static("v")).is_err() {
+                break;
+            }
+            i += 1;
+            if i > 100_000 {
+                break;
+            }
+        }
+    }
+    Some(req)
 }
 
 #[derive(Clone, Copy, Debug, PartialEq, Eq, PartialOrd, Ord)]
